@@ -382,6 +382,10 @@ def prepare(prop, tier, seed, only=None):
     npairs = 0
     _ST['n_random'] = (9000 if prop == 'C10' else 5000) if tier == 'quick' else (150000 if prop == 'C10' else 60000)
     _ST['n_pairs'] = (3000 if prop == 'C10' else 1500) if tier == 'quick' else (120000 if prop == 'C10' else 30000)
+    _ST['dwarf_names'] = [n for n in _ST['names'] if any(_kind(o) in ('lineprog_seq', 'die_iter') for o in _ST['files'][n]['pool'])]
+    _ST['n_xfile'] = 0
+    if prop == 'C10' and len(_ST['dwarf_names']) >= 2:
+        _ST['n_xfile'] = len(_ST['dwarf_names']) * (4 if tier == 'quick' else 40)
     if not _ST['names']:
         _ST['n_random'] = 0
         _ST['n_pairs'] = 0
@@ -390,7 +394,7 @@ def prepare(prop, tier, seed, only=None):
 def n_runs(prop, tier):
     # index 0 .. n_cross-1: the history-free cross-path findings of prepare (one pseudo run each),
     # then the random histories, then the stratified pair pass
-    return len(_ST['prep_cross']) + _ST['n_random'] + _ST.get('n_pairs', 0)
+    return len(_ST['prep_cross']) + _ST['n_random'] + _ST.get('n_pairs', 0) + _ST.get('n_xfile', 0)
 
 
 # ---------------------------------------------------------------- a simulation run
@@ -402,6 +406,22 @@ def gen_spec(prop, tier, seed, index):
     rs = run_seed(seed, prop, tier, index)
     r = substream(rs, 'cfg')
     names = _ST['names']
+    if index >= nx + _ST['n_random'] + _ST.get('n_pairs', 0):
+        # struct-cache runs: everything of file A is decoded, then everything of file B, in one process; B must answer as
+        # if it were alone (process-wide caches keyed by byte order / format / address size / version are shared)
+        k = index - nx - _ST['n_random'] - _ST.get('n_pairs', 0)
+        dn = _ST['dwarf_names']
+        b = dn[k % len(dn)]
+        same = [n for n in dn if n != b and _ST['files'][n]['data'][4:6] == _ST['files'][b]['data'][4:6]] or [n for n in dn if n != b]
+        a = r.choice(same)
+        tasks = []
+        for n in (a, b):
+            wide = [o for o in _ST['files'][n]['pool'] if _kind(o) in ('lineprog_seq', 'die_iter', 'cfi_entries', 'cfi_decoded_seq', 'loc_iter', 'rng_iter', 'aranges_entries', 'pub_items', 'tu_iter', 'cu_iter', 'die_top', 'session:lineprog', 'session:cu')]
+            r.shuffle(wide)
+            tasks.append(wide[:6])
+        cfg = dict(p_displace=0, p_abandon=0, burst=1, policy='sequential')
+        return dict(engine=ENGINE, kind='sim', file=a, files=[a, b], task_files=[0, 1], tasks=tasks, cfg=cfg, seed=rs, schedule=None,
+                    focus=_focus(prop))
     if index >= nx + _ST['n_random']:
         # stratified pair pass: file and ordered pair of op kinds are enumerated by the index, the ops of those
         # kinds and the displacement are seeded
@@ -666,6 +686,12 @@ def execute_spec(spec):
                 sched_out.append(['displace', sn, p])
                 log.append(('d', sn, p))
 
+        if cfg.get('policy') == 'sequential':
+            for ti in range(len(tasks)):
+                while not tasks[ti].done and nsteps < maxsteps:
+                    step(ti)
+                    sched_out.append(['step', ti])
+                    nsteps += 1
         if cfg.get('policy') == 'pair' and len(tasks) == 2:
             # stratified pair pass: a (half-way, left suspended) ; displacement? ; b (to its end) ; rest of a
             half = max(1, len(tasks[0].ref or []) // 2) if tasks[0].ref else 0
@@ -711,14 +737,14 @@ def execute_spec(spec):
                     log.append(('a', ti))
     out_spec = dict(spec, schedule=sched_out)
     out_spec.pop('lenient', None)
-    nontrivial = between > 0 or displaced > 0
+    nontrivial = between > 0 or displaced > 0 or (multi and cfg.get('policy') == 'sequential')
     sample = None
     return dict(spec=out_spec, violations=violations, digest=pdigest(log), nontrivial=nontrivial,
                 nt_digest=pdigest(fnames, sched_out, spec['tasks']), evaluations=1, sim_time=ctx.clock.seq,
                 faults={'cursor_displacement': [displaced, displaced], 'iterator_abandon': [abandoned, abandoned],
                         'interleaved_step': [between, between]},
                 probes={'steps': len([l for l in log if isinstance(l[0], int)]), 'two_file_runs': int(multi),
-                        'pair_pass_runs': int(cfg.get('policy') == 'pair'),
+                        'pair_pass_runs': int(cfg.get('policy') == 'pair'), 'struct_cache_two_file_runs': int(cfg.get('policy') == 'sequential'),
                         **{'pair:%s>%s' % p: 1 for p in pairs}, **{'state:%s' % cdigest(s): 1 for s in states}},
                 sample=sample)
 
